@@ -57,6 +57,41 @@ pub struct Replay {
     pub group: Option<Vec<Scenario>>,
     #[serde(default)]
     pub schedule: Option<Vec<u8>>,
+    /// for violations that only show after earlier parses on the same caller thread(s): the steps that
+    /// ran before on a fresh thread, in order (minimised); the scenario / group above comes last
+    #[serde(default)]
+    pub history: Option<Vec<Step>>,
+}
+
+/// One step of a session: a single parse on the session's thread, or a group of parses interleaved
+/// on the session's caller threads.
+#[derive(Clone, Debug, Serialize, Deserialize)]
+pub enum Step {
+    One(Scenario),
+    Group(Vec<Scenario>, Vec<u8>),
+}
+
+/// A session is `SESSION` consecutive run indices executed in order on one fresh worker thread (and
+/// the caller threads it creates for its groups): everything thread-local that the code under test
+/// keeps is then a function of (seed, session prefix), so a violation that needs earlier parses on
+/// the same thread is reproduced by replaying that prefix on a fresh thread.
+pub const SESSION: u64 = 256;
+
+fn on_fresh_thread<T: Send>(f: impl FnOnce() -> T + Send) -> T {
+    std::thread::scope(|s| std::thread::Builder::new().stack_size(64 << 20).spawn_scoped(s, f).expect("spawn").join().expect("fresh thread panicked outside a simulated run"))
+}
+
+/// Runs the steps in order on the current thread; the judged results of the last one.
+fn run_steps(steps: &[Step]) -> Vec<Judged> {
+    let recvs = schema::recvs();
+    let mut last = Vec::new();
+    for st in steps {
+        last = match st {
+            Step::One(sc) => vec![run::run(sc, recvs)],
+            Step::Group(scs, schedule) => interleave::run_group(scs, schedule).judged,
+        };
+    }
+    last
 }
 
 pub fn mode_for(prop: &str) -> &'static str {
@@ -242,6 +277,7 @@ pub fn make_replay(prop: &str, sc_orig: &Scenario, sc_min: &Scenario, f: &Failur
         }),
         group: None,
         schedule: None,
+        history: None,
     }
 }
 
@@ -302,7 +338,8 @@ fn cmd_batch(args: &[String], sweep_mode: bool) -> i32 {
     let sweep_cases: Vec<Scenario> = if sweep_mode { sweep::cases(mode, recvs) } else { Vec::new() };
     let count: u64 = if sweep_mode { sweep_cases.len() as u64 } else { arg(args, "--count").map(|s| s.parse().expect("--count")).unwrap_or(1000) };
     let progress = arg(args, "--progress").map(|p| std::fs::OpenOptions::new().create(true).write(true).truncate(true).open(p).expect("progress file"));
-    let cfg = PoolCfg { workers, stack_bytes: 64 << 20, retire_after: 10_000, chunk: 32, progress };
+    // one session = one chunk = one fresh worker thread
+    let cfg = PoolCfg { workers, stack_bytes: 64 << 20, retire_after: SESSION, chunk: SESSION, progress };
     let stop = AtomicBool::new(false);
     let nfail = Mutex::new(0usize);
     let t0 = std::time::Instant::now();
@@ -421,22 +458,88 @@ fn cmd_batch(args: &[String], sweep_mode: bool) -> i32 {
             continue;
         }
         let idx = if sweep_mode { format!("sweep{}", i) } else { i.to_string() };
-        let alone = run::run(sc, recvs);
-        let fails_alone = relevant(&prop, &sc.mode, &alone).iter().any(|x| x.rule == f.rule);
-        if !fails_alone {
-            if let (false, Some((scs, schedule))) = (sweep_mode, group_of(seed, *i, mode)) {
-                // only under interleaving: keep the whole group and its schedule, unminimised
-                let mut rp = make_replay(&prop, sc, sc, f, Some(seed), Some(idx), 0);
+        let fails = |js: &[Judged], scs: &[&Scenario]| js.iter().zip(scs).any(|(j, m)| relevant(&prop, &m.mode, j).iter().any(|x| x.rule == f.rule));
+        // (a) alone, on a fresh thread
+        let alone = on_fresh_thread(|| run::run(sc, recvs));
+        if fails(std::slice::from_ref(&alone), &[sc]) {
+            let (min, steps) = on_fresh_thread(|| minimise::minimise(&prop, sc, &f.rule, 1500));
+            replays.push(on_fresh_thread(|| make_replay(&prop, sc, &min, f, Some(seed), Some(idx.clone()), steps)));
+            continue;
+        }
+        // (b) only when interleaved with the other parses of its group (fresh caller threads)
+        let group = if sweep_mode { None } else { group_of(seed, *i, mode) };
+        if let Some((scs, schedule)) = &group {
+            let members: Vec<&Scenario> = scs.iter().collect();
+            let js = on_fresh_thread(|| interleave::run_group(scs, schedule).judged);
+            if fails(&js, &members) {
+                let mut rp = on_fresh_thread(|| make_replay(&prop, sc, sc, f, Some(seed), Some(idx.clone()), 0));
                 rp.detail = format!("{} [fails only when interleaved with the other parses of its group]", f.detail);
                 rp.rule = f.rule.clone();
-                rp.group = Some(scs);
-                rp.schedule = Some(schedule);
+                rp.group = Some(scs.clone());
+                rp.schedule = Some(schedule.clone());
                 replays.push(rp);
                 continue;
             }
         }
-        let (min, steps) = minimise::minimise(&prop, sc, &f.rule, 1500);
-        replays.push(make_replay(&prop, sc, &min, f, Some(seed), Some(idx), steps));
+        // (c) only after what ran before in its session, on the same thread(s)
+        let lo = start + ((*i - start) / SESSION) * SESSION;
+        let step_of = |k: u64| -> Step {
+            if sweep_mode {
+                Step::One(sweep_cases[k as usize].clone())
+            } else {
+                match group_of(seed, k, mode) {
+                    Some((scs, schedule)) => Step::Group(scs, schedule),
+                    None => Step::One(gen::generate(run_seed(seed, k), mode, recvs)),
+                }
+            }
+        };
+        let last = step_of(*i);
+        let last_members: Vec<Scenario> = match &last {
+            Step::One(m) => vec![m.clone()],
+            Step::Group(ms, _) => ms.clone(),
+        };
+        let with_history = |hist: &[Step]| -> bool {
+            let mut steps: Vec<Step> = hist.to_vec();
+            steps.push(last.clone());
+            let js = on_fresh_thread(|| run_steps(&steps));
+            let members: Vec<&Scenario> = last_members.iter().collect();
+            fails(&js, &members)
+        };
+        let history: Vec<Step> = (lo..*i).map(step_of).collect();
+        let mut rp = on_fresh_thread(|| make_replay(&prop, sc, sc, f, Some(seed), Some(idx.clone()), 0));
+        rp.rule = f.rule.clone();
+        if with_history(&history) {
+            let from = history.len();
+            let mut budget = 400usize;
+            let min_hist = simcore::ddmin::ddmin(history, &mut budget, &mut |h: &[Step]| with_history(h));
+            rp.detail = format!("{} [fails only after the {} earlier step(s) of its session listed under `history`, replayed in order on a fresh thread]", f.detail, min_hist.len());
+            rp.minimised = json!({"history_from": from, "history_to": min_hist.len(), "steps": 400 - budget});
+            if let Step::Group(ms, schedule) = &last {
+                rp.group = Some(ms.clone());
+                rp.schedule = Some(schedule.clone());
+            }
+            // what the failing parse looked like after that history
+            let mut steps: Vec<Step> = min_hist.clone();
+            steps.push(last.clone());
+            let js = on_fresh_thread(|| run_steps(&steps));
+            for (m, j) in last_members.iter().zip(&js) {
+                if relevant(&prop, &m.mode, j).iter().any(|x| x.rule == f.rule) {
+                    rp.scenario = m.clone();
+                    rp.input_source = j.source.clone();
+                    rp.expected = j.expected.clone();
+                    rp.observed = format!("{:?}", j.outcome);
+                    rp.observed_digest = format!("{:016x}", outcome_digest(j));
+                    break;
+                }
+            }
+            rp.history = Some(min_hist);
+        } else {
+            rp.detail = format!(
+                "{} [observed once in the batch; it reproduces neither alone, nor in its group, nor after its session's history on a fresh thread: it depends on state shared between concurrently running sessions (process-wide) - re-run the batch to see it]",
+                f.detail
+            );
+        }
+        replays.push(rp);
     }
     let distinct: BTreeMap<String, u64> = stats.sets.iter().map(|(k, v)| (k.clone(), v.len() as u64)).collect();
     let out = json!({
@@ -471,6 +574,41 @@ fn cmd_replay(path: &str) -> i32 {
     let text = std::fs::read_to_string(path).expect("replay file readable");
     let rp: Replay = serde_json::from_str(&text).expect("replay file parses");
     let recvs = schema::recvs();
+    if let Some(hist) = &rp.history {
+        // the history first, in order, then the scenario / group, all on one fresh thread
+        let last = match (&rp.group, &rp.schedule) {
+            (Some(g), Some(s)) => Step::Group(g.clone(), s.clone()),
+            _ => Step::One(rp.scenario.clone()),
+        };
+        let members: Vec<Scenario> = match &last {
+            Step::One(m) => vec![m.clone()],
+            Step::Group(ms, _) => ms.clone(),
+        };
+        let mut steps = hist.clone();
+        steps.push(last);
+        let js = on_fresh_thread(|| run_steps(&steps));
+        let mut bad = false;
+        let mut same = false;
+        for (m, j) in members.iter().zip(&js) {
+            if let Some(h) = &j.harness_error {
+                println!("HARNESS-ERROR: {}", h);
+                return 2;
+            }
+            for f in relevant(&rp.property, &m.mode, j) {
+                println!("rule={} receiver={} {}", f.rule, m.receiver, f.detail);
+                same |= f.rule == rp.rule;
+                bad = true;
+            }
+        }
+        if bad {
+            println!("after {} earlier step(s) on the same thread", hist.len());
+            println!("reproduced_exactly={}", same);
+            println!("VIOLATION property={} replay={}", rp.property, path);
+            return 1;
+        }
+        println!("no violation: history + scenario of {} satisfy every {} rule on this tree", path, rp.property);
+        return 0;
+    }
     if let (Some(group), Some(schedule)) = (&rp.group, &rp.schedule) {
         let gr = interleave::run_group(group, schedule);
         let mut bad = false;
@@ -584,6 +722,7 @@ fn cmd_minimise_isolated(args: &[String]) -> i32 {
         minimised: json!({"from": minimise::size(&sc), "to": minimise::size(&min), "steps": steps, "one_child_process_per_candidate": true}),
         group: None,
         schedule: None,
+        history: None,
     };
     println!("{}", json!({"reproduced": true, "replay": rp}));
     1
